@@ -158,8 +158,12 @@ func checkTopModel(c *Ctx) {
 	if failed {
 		return
 	}
-	msg := fmt.Sprintf("topmodel: %d token strings (all %d of length <= %d over %d tokens; all %d sequences of <= 3 of %d statement templates), %d accepted; accept/reject or labels with scope differ between model and real compiler: %d",
-		n, nAll, maxLen, nsym, n-nAll, nt, accepted, drift)
+	alph := fmt.Sprintf("%d", nsym)
+	if !c.Quick() {
+		alph = fmt.Sprintf("%d, and of length <= 4 over %d", nsym, len(topAlphabet))
+	}
+	msg := fmt.Sprintf("topmodel: %d token strings (all %d of length <= %d over %s tokens; all %d sequences of <= 3 of %d statement templates), %d accepted; accept/reject or labels with scope differ between model and real compiler: %d",
+		n, nAll, maxLen, alph, n-nAll, nt, accepted, drift)
 	fmt.Println(msg)
 	c.CovSet("explanation", msg)
 	c.Cov("evaluations", int64(n))
